@@ -14,6 +14,7 @@ import (
 	"os"
 	"os/exec"
 	"path/filepath"
+	"runtime/debug"
 	"sort"
 	"strings"
 	"sync"
@@ -354,7 +355,11 @@ func (e *Engine) Map(n int, fn func(s *Slot, i int)) {
 				if r := recover(); r != nil {
 					panicMu.Lock()
 					if firstPanic == nil {
-						firstPanic = r
+						if _, ok := r.(inconclusive); ok {
+							firstPanic = r
+						} else {
+							firstPanic = fmt.Sprintf("%v\n%s", r, debug.Stack())
+						}
 					}
 					panicMu.Unlock()
 				}
@@ -539,7 +544,7 @@ type serveResp struct {
 	WallUs    int64       `json:"wall_us"`
 }
 
-const inprocWall = 30 * time.Second
+const inprocWall = 12 * time.Second
 
 // roundTrip sends one request; on worker death or stall returns an error
 // after killing the worker.
